@@ -12,7 +12,8 @@ SPEC = {
     'deductive': [
         ('K-next(monotone score)', 'next', '^score:(monotone|non-emitting)'),
         ('K-upsert(keeps the better)', 'upsert', '^upsert:present'),
-        ("_match_non_emitting_states_end(next column written only through keep-the-better upsert; worse candidates dropped)", 'ne_end', r'^ne-end:')],
+        ("_match_non_emitting_states_end(next column written only through keep-the-better upsert; worse candidates dropped)", 'ne_end', r'^ne-end:'),
+        ("match(per observation: emitting expansion first and unconditional, non-emitting search after it iff enabled)", 'match', r'^loop:(emitting-expansion|non-emitting-search)')],
     'bounded': [
         ('ne-on-vs-off', suites.case_C06, 1500, 25000, RULE + '; ' + 'non-trivial = the run with non-emitting states uses one on its best path or the matched indices differ', '')],
 }
